@@ -461,3 +461,47 @@ impl InputTextIndex for InputBuffer {
         self.m2o[range.start]..self.m2o[range.end]
     }
 }
+
+/// Verification hook: copies of every index table of the buffer
+#[cfg(feature = "verif")]
+pub struct VerifTables {
+    pub original: String,
+    pub modified: String,
+    pub modified_2_len: usize,
+    pub m2o: Vec<usize>,
+    pub m2o_2: Vec<usize>,
+    pub mod_chars: Vec<char>,
+    pub mod_c2b: Vec<usize>,
+    pub mod_b2c: Vec<usize>,
+    pub mod_bow: Vec<bool>,
+    pub mod_cat: Vec<u32>,
+    pub mod_cat_continuity: Vec<usize>,
+    pub replaces_len: usize,
+    /// 0 Clean, 1 RW, 2 RO
+    pub state: u8,
+}
+
+#[cfg(feature = "verif")]
+impl InputBuffer {
+    pub fn verif_tables(&self) -> VerifTables {
+        VerifTables {
+            original: self.original.clone(),
+            modified: self.modified.clone(),
+            modified_2_len: self.modified_2.len(),
+            m2o: self.m2o.clone(),
+            m2o_2: self.m2o_2.clone(),
+            mod_chars: self.mod_chars.clone(),
+            mod_c2b: self.mod_c2b.clone(),
+            mod_b2c: self.mod_b2c.clone(),
+            mod_bow: self.mod_bow.clone(),
+            mod_cat: self.mod_cat.iter().map(|c| c.bits()).collect(),
+            mod_cat_continuity: self.mod_cat_continuity.clone(),
+            replaces_len: self.replaces.len(),
+            state: match self.state {
+                BufferState::Clean => 0,
+                BufferState::RW => 1,
+                BufferState::RO => 2,
+            },
+        }
+    }
+}
